@@ -70,15 +70,17 @@ def popIonCharge (s : List Nat) : Option Int :=
   else if digs.all isDigitCode then some (((digs.foldl (fun a d => a * 10 + (d - 48)) 0 : Nat) : Int) * sign)
   else none
 
-/-- `parse_ion_elements` → (count, symbol, charge) -/
+/-- `parse_ion_elements` → (count, symbol, charge); nothing that could be a symbol, an unknown element symbol and a
+malformed charge are all `ValueError` -/
 def parseIonElements (s : List Nat) : Except Err (Int × Key × Int) :=
   match popIonCount s with
-  | none => .error .typeError
+  | none => .error .valueError
   | some (cnt, rest) =>
     let (sym, ch) := popIonSymbol rest
-    match popIonCharge ch with
-    | none => .error .valueError
-    | some c => .ok (cnt, keyOfCodes sym, c)
+    if keyOfCodes sym != kE && (lookup (keyOfCodes sym) isotopicMasses).isNone then .error .valueError
+    else match popIonCharge ch with
+      | none => .error .valueError
+      | some c => .ok (cnt, keyOfCodes sym, c)
 
 /-- `str.split(',')` on code points -/
 def splitComma (s : List Nat) : List (List Nat) :=
